@@ -112,6 +112,19 @@ func (w *World) GenTxEntry(cfg GenCfg) (Entry, bool) {
 				txs = append(txs, Tx{From: hd.A.FA(), Asset: Tickers[asset-1], Amt: amt, Outs: []Xfer{{To: to, Amt: amt}}})
 			}
 		}
+		// legacy bank era: a batch mixing a conversion into PEG with anything else is a
+		// registered finding (double credit / wedge); keep clear of it by construction
+		if w.H() < w.Era.V20 && len(txs) > 1 && Open("C16/mixed-peg-batch") {
+			for i := range txs {
+				if txs[i].Conv == "PEG" {
+					w.Tag("excluded:C16/mixed-peg-batch")
+					txs[i].Conv = "pEUR"
+					if txs[i].Asset == "pEUR" {
+						txs[i].Conv = "pUSD"
+					}
+				}
+			}
+		}
 		w.Tag("batch")
 		seen := map[string]bool{}
 		for _, x := range txs {
